@@ -199,6 +199,8 @@ def mk_cmp(op, a, b):
     """a op b in difference normal form."""
     if not (_numericish(a) and _numericish(b)):
         if op in ("==", "!="):
+            if a[0] == "k" and b[0] == "k":
+                return K((a[1] == b[1]) == (op == "=="))
             a, b = sorted([a, b], key=_key)
         return ("cmpx", op, a, b)
     s = sub(a, b)
@@ -297,6 +299,20 @@ ARITH = {"numpy.divide": "div", "numpy.true_divide": "div", "numpy.multiply": "m
          "numpy.subtract": "sub", "numpy.negative": "neg"}
 
 
+_COMPLEMENT = {">=": "<", ">": "<=", "!=": "=="}  # np.where(a >= b, p, q) == np.where(a < b, q, p) on finite data
+
+
+def _where_parts(t):
+    if t[0] == "call" and t[1] == ("f", "numpy.where") and not t[2] and [k for k, _ in t[3]] == ["condition", "x", "y"]:
+        return t[3][0][1], t[3][1][1], t[3][2][1]
+    return None
+
+
+def where_parts(t):
+    """(condition, value where true, value where false) of a normalised np.where term."""
+    return _where_parts(t)
+
+
 def mk_call(callee, pos, kw, sig=None):
     """Build a call term; ``sig`` = (names, defaults-as-terms) of a repo-local callee."""
     kw = list(kw)
@@ -331,6 +347,25 @@ def mk_call(callee, pos, kw, sig=None):
                 if callee[0] == "f" and callee[1] in SYMMETRIC_BINARY and set(bound) == {"x1", "x2"}:
                     a, b = sorted([bound["x1"], bound["x2"]], key=_key)
                     bound = {"x1": a, "x2": b}
+                if callee == ("f", "numpy.where") and set(bound) == {"condition", "x", "y"}:
+                    c, x, y = bound["condition"], bound["x"], bound["y"]
+                    changed = True
+                    while changed:
+                        changed = False
+                        if c[0] == "not":
+                            c, x, y, changed = c[1], y, x, True
+                        elif c[0] == "cmp" and c[1] in _COMPLEMENT:
+                            c, x, y, changed = ("cmp", _COMPLEMENT[c[1]], c[2]), y, x, True
+                        elif c[0] == "k":
+                            return x if c[1] else y
+                    wx, wy = _where_parts(x), _where_parts(y)
+                    if wx is not None and wx[0] == c:
+                        x = wx[1]
+                    if wy is not None and wy[0] == c:
+                        y = wy[2]
+                    if x == y:
+                        return x
+                    bound = {"condition": c, "x": x, "y": y}
                 if callee[0] == "f" and callee[1] in EVEN_UNARY and set(bound) == {"x"}:
                     x = bound["x"]
                     if x[0] == "sum" and x[2][0][0] < 0:
@@ -466,6 +501,7 @@ class SymExec:
 
     def __init__(self, repo, identity=(), transfers=None, keep=None, inline_modules=(), depth=4, identity_pred=None, drop_reshape=False):
         self.repo = repo
+        self.method_lookup = None  # name -> (module, FunctionDef, is_static) for ``self.name(...)`` (set by the caller per class)
         self.drop_reshape = drop_reshape  # value level: x[:, None], x.reshape(..), np.reshape(x, ..) keep the values of x
         self.identity_pred = identity_pred  # (module, FunctionDef) -> bool: proved to return its first argument
         self.identity = set(identity)
@@ -548,7 +584,15 @@ class SymExec:
         elif isinstance(node, ast.Pass):
             yield st, None, None
         elif isinstance(node, ast.Expr):
-            if not (isinstance(node.value, ast.Constant)):
+            c_ = node.value
+            if (isinstance(c_, ast.Call) and isinstance(c_.func, ast.Attribute) and c_.func.attr == "append"
+                    and isinstance(c_.func.value, ast.Name) and st.env.get(c_.func.value.id, ("?",))[0] == "tuple"
+                    and len(c_.args) == 1 and not c_.keywords and not isinstance(c_.args[0], ast.Starred)):
+                # a local list built step by step (the list is a local of this frame; aliases are not tracked: the
+                # value stays usable only through this name)
+                item = self.ev(c_.args[0], st, module, depth)
+                st.env[c_.func.value.id] = ("tuple", st.env[c_.func.value.id][1] + (item,))
+            elif not (isinstance(node.value, ast.Constant)):
                 v = self.ev(node.value, st, module, depth)
                 st.effects.append(("expr", len(st.conds), v))  # with the number of conditions taken so far
             yield st, None, None
@@ -565,6 +609,9 @@ class SymExec:
                 targets = node.targets
             v = self.ev(node.value, st, module, depth)
             for t in targets:
+                if isinstance(t, ast.Subscript) and isinstance(t.value, ast.Name) and t.value.id in st.env \
+                        and self._store_item(t, v, st, module, depth):
+                    continue
                 self._store(t, v, st)
             yield st, None, None
         elif isinstance(node, ast.AugAssign):
@@ -588,9 +635,57 @@ class SymExec:
                 yield from self._block(node.orelse, st, module, depth)
         elif isinstance(node, (ast.Import, ast.ImportFrom, ast.Global, ast.Nonlocal)):
             yield st, None, None
+        elif isinstance(node, ast.For) and not node.orelse:
+            it = self.ev(node.iter, st, module, depth)
+            if it[0] != "tuple" or any(isinstance(x, (ast.Break, ast.Continue)) for x in ast.walk(node)):
+                raise Undecidable("loop at line %s does not iterate a literal sequence (or uses break/continue)" % node.lineno)
+            yield from self._unroll(node, list(it[1]), st, module, depth)
         else:
             raise Undecidable("statement %s at line %s is outside the executor's fragment"
                               % (type(node).__name__, getattr(node, "lineno", "?")))
+
+    def _unroll(self, node, items, st, module, depth):
+        if not items:
+            yield st, None, None
+            return
+        self._store(node.target, items[0], st)
+        for st2, oc, val in self._block(node.body, st, module, depth):
+            if oc is not None:
+                yield st2, oc, val
+            else:
+                yield from self._unroll(node, items[1:], st2, module, depth)
+
+    def _store_item(self, target, v, st, module, depth):
+        """``name[key] = v`` on a local dict literal, ``name[mask] = f(x[mask])`` on a fresh local array."""
+        name = target.value.id
+        cur = st.env[name]
+        index = self.ev(target.slice, st, module, depth)
+        if cur[0] == "dict" and index[0] == "k":
+            items = [(k_, v_) for k_, v_ in cur[1] if k_ != index] + [(index, v)]
+            st.env[name] = ("dict", tuple(sorted(items, key=_key)))
+            return True
+        if cur[0] == "call" and index[0] in ("cmp", "not", "and", "or"):
+            # masked element-wise update of an array this frame created (a ufunc result): where(mask, new, old);
+            # x[mask] inside the new value is x restricted to the same positions
+            def lift(t):
+                if not isinstance(t, tuple):
+                    return t
+                if t and t[0] == "idx":
+                    if t[2] == index:
+                        return lift(t[1])
+                    raise Undecidable("masked store mixes different masks")
+                if t and t[0] == "call":
+                    return mk_call(lift(t[1]), tuple(lift(x) for x in t[2]), tuple((k_, lift(v_)) for k_, v_ in t[3]))
+                if t and t[0] == "sum":
+                    return mk_sum([(c_, lift(x)) for c_, x in t[2]], t[1])
+                if t and t[0] == "prod":
+                    return mk_prod([lift(x) for x in t[1]], [lift(x) for x in t[2]])
+                if t and t[0] in ("p", "k", "f", "sattr", "self"):
+                    return t
+                raise Undecidable("masked store of a value that is not element-wise")
+            st.env[name] = mk_call(F("numpy.where"), (index, lift(v), cur), ())
+            return True
+        return False
 
     def _store(self, target, v, st):
         if isinstance(target, ast.Name):
@@ -640,6 +735,8 @@ class SymExec:
                 return v
             if isinstance(e.op, ast.Not):
                 return mk_not(v)
+            if isinstance(e.op, ast.Invert) and v[0] in ("cmp", "cmpx", "not", "and", "or", "is", "in"):
+                return mk_not(v)  # ~mask of a boolean array
             return ("un", type(e.op).__name__, v)
         if isinstance(e, ast.BoolOp):
             return mk_bool("and" if isinstance(e.op, ast.And) else "or", [self.ev(v, st, module, depth) for v in e.values])
@@ -654,16 +751,24 @@ class SymExec:
                     parts.append(mk_is(left, right))
                 elif isinstance(op, ast.IsNot):
                     parts.append(mk_not(mk_is(left, right)))
-                elif isinstance(op, ast.In):
-                    parts.append(("in", left, right))
-                else:
-                    parts.append(mk_not(("in", left, right)))
+                elif isinstance(op, (ast.In, ast.NotIn)):
+                    if left[0] == "k" and right[0] == "tuple" and all(x[0] == "k" for x in right[1]):
+                        r_ = K(any(left[1] == x[1] for x in right[1]))
+                    else:
+                        r_ = ("in", left, right)
+                    parts.append(r_ if isinstance(op, ast.In) else mk_not(r_))
                 left = right
             return parts[0] if len(parts) == 1 else mk_bool("and", parts)
         if isinstance(e, ast.Call):
             return self._call(e, st, module, depth)
         if isinstance(e, ast.Subscript):
             base, index = self.ev(e.value, st, module, depth), self.ev(e.slice, st, module, depth)
+            if base[0] == "dict" and index[0] == "k":
+                for k_, v_ in base[1]:
+                    if k_ == index:
+                        return v_
+            if base[0] == "tuple" and index[0] == "k" and isinstance(index[1], int) and -len(base[1]) <= index[1] < len(base[1]):
+                return base[1][index[1]]
             if self.drop_reshape and index[0] == "tuple" and index[1] and all(
                     i in (("slice", NONE, NONE, NONE), NONE, ("f", "numpy.newaxis")) for i in index[1]):
                 return base
@@ -752,6 +857,17 @@ class SymExec:
         callee = self.ev(e.func, st, module, depth)
         if self.drop_reshape and callee[0] == "attr" and callee[2] == "reshape":
             return callee[1]
+        if callee == F("builtins.getattr") and len(pos) == 2 and not kw and pos[1][0] == "k" and isinstance(pos[1][1], str):
+            if pos[0] == ("self",):
+                return st.env.get(("sattr", pos[1][1]), ("sattr", pos[1][1]))
+            return ("attr", pos[0], pos[1][1])
+        if callee[0] == "sattr" and self.method_lookup is not None and depth < self.depth:
+            hit = self.method_lookup(callee[1])
+            if hit is not None and not any(a and a[0] == "*" for a in pos) and not any(k == "**" for k, _ in kw):
+                mmod, mfn, is_static = hit
+                r = self._inline(e, mfn, mmod, ([] if is_static else [("self",)]) + pos, kw, st, depth)
+                if r is not None:
+                    return r
         star = any(a and a[0] == "*" for a in pos) or any(k == "**" for k, _ in kw)
         if callee[0] == "f":
             d = callee[1]
